@@ -345,6 +345,9 @@ impl<'a> Chk<'a> {
             None => {
                 for k in &keys {
                     if lo.is_some_and(|l| *k < l) || hi.is_some_and(|h| *k >= h) {
+                        if std::env::var("AXH_BTREE_WHY").is_ok() {
+                            eprintln!("bound: leaf {} key {} not in [{:?},{:?})", id, k, lo, hi);
+                        }
                         return Err("bound");
                     }
                 }
@@ -360,6 +363,9 @@ impl<'a> Chk<'a> {
                 let mut lo_i = lo;
                 for (c, k) in p.cells.iter().zip(&keys) {
                     if lo.is_some_and(|l| *k < l) || hi.is_some_and(|h| *k >= h) {
+                        if std::env::var("AXH_BTREE_WHY").is_ok() {
+                            eprintln!("bound: interior {} separator {} not in [{:?},{:?})", id, k, lo, hi);
+                        }
                         return Err("bound");
                     }
                     let child = c.left_child.ok_or("child0")?;
@@ -710,6 +716,8 @@ mod generator {
     pub enum Profile {
         Tiny,
         Small,
+        /// 150..200 bytes: about eleven cells per 4 KiB page, so that ~1500 keys give a tree of height 4
+        SmallHi,
         Mid,
         Big,
         Huge,
@@ -721,6 +729,7 @@ mod generator {
             match self {
                 Profile::Tiny => "tiny",
                 Profile::Small => "small",
+                Profile::SmallHi => "smallhi",
                 Profile::Mid => "mid",
                 Profile::Big => "big",
                 Profile::Huge => "huge",
@@ -734,6 +743,7 @@ mod generator {
         match p {
             Profile::Tiny => rng.below(41) as usize,
             Profile::Small => 8 + rng.below(190) as usize,
+            Profile::SmallHi => 150 + rng.below(51) as usize,
             Profile::Mid => 200 + rng.below(500) as usize,
             // around the in-page / overflow boundary (tuple header + key take ~40 bytes of the cell payload)
             Profile::Big => (ideal as i64 - 96 + rng.range(0, 128)).max(1) as usize,
@@ -990,6 +1000,24 @@ mod generator {
                 .min(cap),
             };
             out.push(build(rng, &pl));
+        }
+        // deep trees in the clean region: height >= 4 needs ~1500 cells of ~1/11 page, so that interior pages are
+        // rebalanced against interior siblings (the dividers of a level come from the level above, not from the children)
+        let ndeep = if tier == Tier::Quick { 3 } else { 16 };
+        for i in 0..ndeep {
+            let pattern = ["asc", "random", "desc", "churn", "delall", "zigzag"][(i + rng.below(6) as usize) % 6];
+            let pl = Plan {
+                ps: 4096,
+                mk: 3 + rng.below(3) as usize,
+                sib: 1 + rng.below(4) as usize,
+                kt: *rng.pick(&["u64", "i64", "comp"]),
+                profile: Profile::SmallHi,
+                pattern,
+                nops: 1700 + rng.below(500) as usize,
+            };
+            let mut c = build(rng, &pl);
+            c.tags.push("deep".into());
+            out.push(c);
         }
         // comparator tie: the realisation of key indices is monotone under the code's comparator
         for kt in ["u64", "i64", "text", "ltext", "comp"] {
